@@ -81,6 +81,18 @@ def strip_ts(b):
 
 
 def worker(case):
+    """(the cyclic garbage collector is switched off for the duration of a case: "complete and closed when the call
+    returns" must not depend on when a collection happens to run)"""
+    import gc
+    gc.disable()
+    try:
+        return _worker(case)
+    finally:
+        gc.enable()
+        gc.collect()
+
+
+def _worker(case):
     core.reset_world()
     core.set_order(case[-1])
     s = core.sdn()
